@@ -2,3 +2,5 @@ pub mod gen;
 pub mod ledger;
 pub mod pair;
 pub mod wiremodel;
+pub mod world;
+pub mod script;
